@@ -530,7 +530,9 @@ class Part(object):
                     normal_dur *= 4 / ts.beat_type
                 if musical_beat:
                     normal_dur = ts.musical_beats
-                if actual_dur < normal_dur:
+                # actual_dur is a sum of floats: a full bar may come out a
+                # rounding error short of normal_dur
+                if actual_dur < normal_dur and not np.isclose(actual_dur, normal_dur):
                     y -= actual_dur
             else:
                 # warn
